@@ -871,6 +871,16 @@ def main():
     except ImportError:
         pass
     try:
+        import rs2lean_proxy
+        gens += rs2lean_proxy.generators(args.repo)
+    except ImportError:
+        pass
+    try:
+        import rs2lean_lts
+        gens += rs2lean_lts.generators(args.repo)
+    except ImportError:
+        pass
+    try:
         import rs2lean_dispatch
         gens += rs2lean_dispatch.generators(args.repo)
     except ImportError:
